@@ -16,6 +16,7 @@ pub mod c12;
 pub mod c13;
 pub mod c14;
 pub mod c15;
+pub mod c16;
 pub mod fac;
 
 pub fn dispatch(args: &Args, rep: &mut Report) {
@@ -35,6 +36,7 @@ pub fn dispatch(args: &Args, rep: &mut Report) {
         "C13" => c13::run(args, rep),
         "C14" => c14::run(args, rep),
         "C15" => c15::run(args, rep),
+        "C16" => c16::run(args, rep),
         p => {
             eprintln!("unknown property {p}");
             std::process::exit(2);
